@@ -58,6 +58,12 @@ pub fn eval(ctx: &mut Context, line: &str) -> Result<QueryReply, QueryError> {
                 ctx.previous_result = Some(raw.clone());
             }
         }
+        // A plain expression whose value is a time is shown as a duration breakdown.
+        if let QueryReply::Duration(ref duration) = res {
+            if let Some(ref raw) = duration.raw.raw_value {
+                ctx.previous_result = Some(raw.clone());
+            }
+        }
     }
     Ok(res)
 }
